@@ -145,6 +145,7 @@ const (
 	KStructLit = "structlit" // T{A...} positional
 	KUnsafe  = "unsafe"  // unsafe.Name(A...)
 	KTypeArg = "typearg" // a type used as argument (new/make): T
+	KLocal   = "local"   // a local variable / parameter / label-free identifier in scope: Name
 )
 
 // E is one expression node.
@@ -164,6 +165,7 @@ func Lit(kind token.Token, text string) *E { return &E{K: KLit, LitKind: kind, L
 func Obj(name string) *E                    { return &E{K: KObj, Name: name} }
 func Uni(name string) *E                    { return &E{K: KUni, Name: name} }
 func Nil() *E                               { return &E{K: KNil} }
+func Local(name string) *E                  { return &E{K: KLocal, Name: name} }
 func Bin(tok token.Token, a, b *E) *E       { return &E{K: KBin, Tok: tok, A: []*E{a, b}} }
 func Un(tok token.Token, a *E) *E           { return &E{K: KUn, Tok: tok, A: []*E{a}} }
 func Star(a *E) *E                          { return &E{K: KStar, A: []*E{a}} }
@@ -322,7 +324,7 @@ func (e *E) render(b *strings.Builder, top bool) {
 		b.WriteString(e.Lit)
 	case KObj:
 		b.WriteString("env." + e.Name)
-	case KUni:
+	case KUni, KLocal:
 		b.WriteString(e.Name)
 	case KNil:
 		b.WriteString("nil")
@@ -432,7 +434,7 @@ func (e *E) Shape(kindOf func(*E) string) string {
 
 func (e *E) shape(b *strings.Builder, kindOf func(*E) string) {
 	switch e.K {
-	case KLit, KObj, KUni, KNil:
+	case KLit, KObj, KUni, KNil, KLocal:
 		b.WriteString(kindOf(e))
 		return
 	case KBin:
@@ -523,6 +525,8 @@ func (p *Builder) Build(e *E) {
 		}
 	case KNil:
 		cb.Val(nil, src(e))
+	case KLocal:
+		cb.VarVal(e.Name, src(e))
 	case KBin:
 		p.Build(e.A[0])
 		p.Build(e.A[1])
@@ -609,7 +613,7 @@ func (p *Builder) Build(e *E) {
 // violation classes.
 func (e *E) Root() string {
 	switch e.K {
-	case KLit, KObj, KUni, KNil:
+	case KLit, KObj, KUni, KNil, KLocal:
 		return "atom:" + KindOf(e)
 	case KBin:
 		return "bin" + e.Tok.String()
@@ -677,9 +681,9 @@ func Match(e *E, a ast.Expr, f func(*E, ast.Expr)) bool {
 		if !is || s.Sel.Name != e.Name {
 			return false
 		}
-	case KUni, KNil:
+	case KUni, KNil, KLocal:
 		id, is := a.(*ast.Ident)
-		if !is || (e.K == KUni && id.Name != e.Name) || (e.K == KNil && id.Name != "nil") {
+		if !is || (e.K != KNil && id.Name != e.Name) || (e.K == KNil && id.Name != "nil") {
 			return false
 		}
 	case KBin:
